@@ -180,11 +180,11 @@ fn board_chunk(rng: &mut Rng, events: usize, out: &mut dyn Write) {
                 continue;
             }
             // now and then edit the board through the deprecated in-place API
-            if rng.chance(1, 25) {
+            if rng.chance(1, 16) {
                 let mut ev = Map::new();
                 #[allow(deprecated)]
-                if rng.chance(1, 4) {
-                    let add = rng.chance(1, 3);
+                if rng.chance(1, 2) {
+                    let add = rng.chance(2, 3);
                     let c = if rng.chance(1, 2) { Color::White } else { Color::Black };
                     let which = [CastleRights::KingSide, CastleRights::QueenSide, CastleRights::Both][rng.below(3)];
                     let names: Vec<&str> = match (c, which) {
@@ -310,7 +310,11 @@ fn observe_game(g: &Game, ev: &mut Map<String, Value>) {
     ev.insert("can".into(), json!(g.can_declare_draw()));
 }
 
-const GAME_FENS: [&str; 14] = [
+const GAME_FENS: [&str; 18] = [
+    "8/P3k3/8/8/8/8/8/4K3 w - - 0 1",
+    "4k3/8/8/8/8/8/p3K3/8 b - - 0 1",
+    "8/8/8/8/8/5k2/8/5KQ1 w - - 0 1",
+    "k7/8/8/8/8/8/8/4K2R w K - 0 1",
     "rnbqkbnr/pppppppp/8/8/8/8/PPPPPPPP/RNBQKBNR w KQkq - 0 1",
     "r3k2r/8/8/8/8/8/8/R3K2R w KQkq - 0 1",
     "4k3/8/8/8/8/8/8/R3K2R w KQ - 0 1",
@@ -351,9 +355,13 @@ fn game_chunk(rng: &mut Rng, events: usize, out: &mut dyn Write, claims: bool) {
         let shuffle = claims || rng.chance(1, 3);
         // the ply at which a castling right may be given up on purpose
         let rights_ply = 20 + rng.below(80);
-        let len = if shuffle { 130 + rng.below(120) } else { 20 + rng.below(120) };
+        let span = if rng.chance(1, 4) { 220 } else { 120 };
+        let len = if shuffle { 130 + rng.below(span) } else { 20 + rng.below(120) };
         let mut history: Vec<ChessMove> = vec![];
         let mut plies = 0usize;
+        // a marathon game only asks whether a draw could be claimed, it never claims (300+ quiet half-moves)
+        let marathon = shuffle && rng.chance(1, 5);
+        let len = if marathon { 300 + rng.below(40) } else { len };
         for _ in 0..len {
             if n >= events {
                 break;
@@ -367,7 +375,23 @@ fn game_chunk(rng: &mut Rng, events: usize, out: &mut dyn Write, claims: bool) {
             if roll < p_move && !ms.is_empty() {
                 let rev: Vec<ChessMove> = ms.iter().cloned().filter(|m| reversible(&b, *m)).collect();
                 let quiet: Vec<ChessMove> = rev.iter().cloned().filter(|m| keeps_rights(&b, *m)).collect();
-                let m = if shuffle {
+                // once a hundred quiet half-moves are on the clock, end the game by mate or stalemate if that is possible
+                let finisher: Option<ChessMove> = if shuffle && plies >= 100 && rng.chance(2, 3) {
+                    quiet.iter().cloned().find(|m| b.make_move_new(*m).status() != BoardStatus::Ongoing)
+                } else {
+                    None
+                };
+                // early on, run a pawn home (a promotion without capture is a pawn move too)
+                let pawnrun: Vec<ChessMove> = if shuffle && plies < 12 {
+                    ms.iter().cloned().filter(|m| b.piece_on(m.get_source()) == Some(Piece::Pawn) && b.piece_on(m.get_dest()).is_none()).collect()
+                } else {
+                    vec![]
+                };
+                let m = if let Some(f) = finisher {
+                    f
+                } else if !pawnrun.is_empty() && rng.chance(3, 4) {
+                    pawnrun[rng.below(pawnrun.len())]
+                } else if shuffle {
                     // undo the move before last now and then (builds repetitions), otherwise prefer
                     // reversible moves; give up a castling right once, around rights_ply
                     let back = if history.len() >= 2 && rng.chance(1, 3) {
@@ -429,6 +453,31 @@ fn game_chunk(rng: &mut Rng, events: usize, out: &mut dyn Write, claims: bool) {
                 ev.insert("c".into(), json!(if c == Color::White { "w" } else { "b" }));
                 ev.insert("ret".into(), json!(ret));
             } else {
+                if marathon {
+                    continue;
+                }
+                // a claim is available: sometimes end the game another way first, the post-result calls then try to declare
+                if shuffle && g.can_declare_draw() && rng.chance(1, 4) {
+                    let c = if rng.chance(1, 2) { Color::White } else { Color::Black };
+                    let ret = g.resign(c);
+                    ev.insert("op".into(), json!("resign"));
+                    ev.insert("c".into(), json!(if c == Color::White { "w" } else { "b" }));
+                    ev.insert("ret".into(), json!(ret));
+                    observe_game(&g, &mut ev);
+                    writeln!(out, "{}", Value::Object(ev)).unwrap();
+                    n += 1;
+                    for _ in 0..2 {
+                        let mut ev = Map::new();
+                        ev.insert("event".into(), json!("GameOp"));
+                        let ret = g.declare_draw();
+                        ev.insert("op".into(), json!("declare_draw"));
+                        ev.insert("ret".into(), json!(ret));
+                        observe_game(&g, &mut ev);
+                        writeln!(out, "{}", Value::Object(ev)).unwrap();
+                        n += 1;
+                    }
+                    break;
+                }
                 // declare: in shuffle games only rarely before the interesting region, so that the game goes on
                 if shuffle && !(g.can_declare_draw() && rng.chance(1, 6)) && rng.chance(9, 10) {
                     // a pure query step: log an offer instead of ending the game... keep it simple: try declaring
@@ -496,7 +545,9 @@ fn game_chunk(rng: &mut Rng, events: usize, out: &mut dyn Write, claims: bool) {
 }
 
 // ------------------------------------------------------------------ MoveGen iterator scripts
-const ITER_FENS: [&str; 10] = [
+const ITER_FENS: [&str; 12] = [
+    "2b5/3P4/4K3/8/8/8/8/k7 w - - 0 1",
+    "K7/8/8/8/8/4k3/3p4/2B5 b - - 0 1",
     "8/P1k5/K7/8/8/8/8/8 w - - 0 1",
     "n1n5/PPPk4/8/8/8/8/4Kppp/5N1N b - - 0 1",
     "n1n5/PPPk4/8/8/8/8/4Kppp/5N1N w - - 0 1",
@@ -534,7 +585,15 @@ fn random_mask(rng: &mut Rng, b: &Board) -> BitBoard {
 fn iter_script(rng: &mut Rng, b: &Board, out: &mut dyn Write, n: &mut usize) {
     let all: Vec<ChessMove> = MoveGen::new_legal(b).collect();
     let mut g = MoveGen::new_legal(b);
-    writeln!(out, "{}", json!({"event": "IterNew", "fen": format!("{}", b), "all": all.iter().map(|m| mv_json(*m)).collect::<Vec<_>>()})).unwrap();
+    let p = proj(b);
+    writeln!(
+        out,
+        "{}",
+        json!({"event": "IterNew", "fen": format!("{}", b), "all": all.iter().map(|m| mv_json(*m)).collect::<Vec<_>>(),
+               "sq": sq_string(&p.sq), "stm": (p.stm as char).to_string(), "cr": cr_list(p.cr),
+               "ep_raw": b.en_passant().map(|s| s.to_index() as i64).unwrap_or(-1)})
+    )
+    .unwrap();
     *n += 1;
     log_len(&g, out, n);
     // a mask may already be in place when the removals are made (nothing has been drawn yet)
@@ -603,6 +662,11 @@ fn iter_chunk(rng: &mut Rng, events: usize, out: &mut dyn Write) {
     while n < events {
         let text = if rng.chance(1, 3) { ITER_FENS[rng.below(ITER_FENS.len())] } else { START_FENS[rng.below(START_FENS.len())] };
         let mut b = Board::from_str(text).expect("fen");
+        // the curated position itself first, then positions along a playout from it
+        iter_script(rng, &b, out, &mut n);
+        if n >= events {
+            return;
+        }
         let plies = rng.below(60);
         for _ in 0..plies {
             let ms: Vec<ChessMove> = MoveGen::new_legal(&b).collect();
@@ -681,7 +745,13 @@ const NOISE: [&str; 24] = ["a", "h", "1", "8", "x", "N", "K", "Q", "O", "-", "+"
 fn mutate(rng: &mut Rng, s: &str) -> String {
     let chars: Vec<char> = s.chars().collect();
     let mut out: Vec<String> = chars.iter().map(|c| c.to_string()).collect();
-    match rng.below(4) {
+    match rng.below(5) {
+        4 => {
+            // trailing garbage of a few tokens after an otherwise sound text
+            for _ in 0..(1 + rng.below(7)) {
+                out.push(NOISE[rng.below(NOISE.len())].to_string());
+            }
+        }
         0 if !out.is_empty() => {
             out.remove(rng.below(out.len()));
         }
@@ -1262,7 +1332,9 @@ fn main() {
         }
         i += 1;
     }
-    std::panic::set_hook(Box::new(|_| {}));
+    if std::env::var("VERIF_PANIC_MSG").is_err() {
+        std::panic::set_hook(Box::new(|_| {}));
+    }
     std::fs::create_dir_all(&outdir).unwrap();
     for c in 0..chunks {
         let mut rng = Rng(seed.wrapping_mul(1_000_003).wrapping_add(c as u64 * 7919));
